@@ -322,9 +322,11 @@ class MessageQueue(Entity):
 
         yield self._delivery_latency
 
-        # Create delivery event
+        # Create delivery event. The latency wait has advanced the clock, so the
+        # event must carry the current instant: stamped with the pre-wait `now`
+        # it would lie in the past and the engine would discard it.
         delivery_event = Event(
-            time=now,
+            time=self._clock.now if self._clock else Instant.Epoch,
             event_type="message_delivery",
             target=consumer,
             context={
